@@ -86,4 +86,20 @@ theorem loop_p2 : obsR (run loopApp ctx0 2 2 5000).halt (run loopApp ctx0 2 2 50
     (some .ret, [12#32, 0#32, 36#32, 0#32, 0#32, 0#32]) := by
   rw [← Proofs.Mvp60Fast.runFast_eq_run]; decide +kernel
 
+/-- a register-only program with a backward conditional branch (a loop), a `mul` and a `ret`, no jump:
+`li s0, 3; li a0, 1; l1: mul a0, a0, s0; addi s0, s0, -1; bnez s0, l1; ret` -/
+def brApp : Model.Seq.App :=
+  { instrs := [.li_ { rd := 8, imm := 3#32 }, .li_ { rd := 10, imm := 1#32 }, .mul_ { rd := 10, rs1 := 10, rs2 := 8 },
+               .addi_ { rd := 8, rs := 8, imm := BitVec.ofInt 32 (-1) }, .bnez_ { rs := 8, label := "l1" }, .ret_ {}],
+    labels := GoMap.ofList [("l1", 8#32)] }
+
+theorem br_class : BranchOnly brApp = true ∧ StraightLineRet brApp = false := by decide
+
+theorem br_seq : obsR (Model.Seq.runMvp1 brApp ⟨ctx0, 0⟩ 40).halt (Model.Seq.runMvp1 brApp ⟨ctx0, 0⟩ 40).final.ctx =
+    (some .ret, [0#32, 0#32, 6#32, 0#32, 0#32, 0#32]) := by decide +kernel
+
+theorem br_p1 : obsR (run brApp ctx0 1 1 5000).halt (run brApp ctx0 1 1 5000).final.ctx =
+    (some .ret, [0#32, 0#32, 6#32, 0#32, 0#32, 0#32]) := by
+  rw [← Proofs.Mvp60Fast.runFast_eq_run]; decide +kernel
+
 end Proofs.Mvp60SlWitness
